@@ -520,6 +520,15 @@ func c18Cases(c *Ctx, n int) []restCase {
 			}
 		case 8:
 			iss, acc := gen.URLString(rng, false), gen.URLString(rng, true)
+			if rng.Intn(6) == 0 {
+				// large fields: responses of several KiB to 100 KiB (buffer-size thresholds, pooled buffers under concurrency)
+				for n := gen.Pick(rng, []int{50, 300, 1500, 8000}); n > 0; n-- {
+					iss += gen.URLString(rng, false)
+				}
+				if rng.Bool() {
+					acc += strings.Repeat(gen.URLString(rng, true), 200)
+				}
+			}
 			if strings.TrimSpace(iss) == "" || strings.TrimSpace(acc) == "" || !validUTF8(iss) || !validUTF8(acc) {
 				continue
 			}
@@ -537,6 +546,22 @@ func c18Cases(c *Ctx, n int) []restCase {
 			}
 			add(restCase{EP: "otp/secret", Method: "GET", Query: q})
 		}
+	}
+	return out
+}
+
+// c18LargeCases: well-formed requests whose success responses are several KiB to hundreds of KiB.
+func c18LargeCases(c *Ctx, n int) []restCase {
+	rng := c.RNG.Fork(182)
+	var out []restCase
+	for i := 0; i < n; i++ {
+		sec, _ := restSecret(rng)
+		iss := ""
+		for k := gen.Pick(rng, []int{300, 600, 1500, 4000, 12000}); k > 0; k-- {
+			iss += gen.Pick(rng, []string{"a", "Z", "0", " ", "é", "/", "%", "&", "日"})
+		}
+		f := map[string]any{"secret": strings.TrimSpace(sec), "type": gen.Pick(rng, []string{"totp", "hotp"}), "issuer": "I" + iss, "account_name": fmt.Sprintf("user-%d@example.com", i)}
+		out = append(out, restCase{EP: "otp/url", Method: "POST", F: f, Fresh: rng.Intn(4) == 0, Note: "large response"})
 	}
 	return out
 }
